@@ -5,6 +5,7 @@ import (
 	"crypto/sha256"
 	"encoding/hex"
 	"fmt"
+	"hash/fnv"
 	"io"
 	"os"
 	"path/filepath"
@@ -85,6 +86,7 @@ type Node struct {
 	Opts    *zenodb.DBOpts
 	Tables  []TableDef
 	hits    map[string]int
+	hitsT   map[string]int
 	closed  bool
 	// closeFn replaces DB.Close for nodes that are whole servers
 	closeFn func()
@@ -93,6 +95,10 @@ type Node struct {
 }
 
 var curEnv *Env
+
+// sites at which the yield layer may pause (none of them holds a lock)
+var yieldSites = map[string]bool{"ins.tableRecv": true, "rs.applied": true, "rs.fieldUpdate": true, "flush.begin": true, "flush.headerWritten": true, "flush.bodyDone": true, "flush.renamed": true, "flush.swapped": true, "offs.begin": true, "scan.snapshotTaken": true, "gc.beforeRemove": true}
+var yieldPauses = []time.Duration{time.Microsecond, 40 * time.Microsecond, time.Millisecond, 3 * time.Millisecond}
 
 func init() {
 	simhook.PointFn = func(site string, owner interface{}, table string) {
@@ -239,9 +245,30 @@ func (e *Env) onPoint(site string, owner interface{}, table string) {
 		}
 	}
 	cb := e.OnPoint
+	// yield layer: a seeded pause at some passes of some sites (a function of
+	// seed, node, site, table and occurrence only) lets the other goroutines of
+	// the bubble overtake this one
+	var pause time.Duration
+	if rate := e.Plan.Cfg.Extra["yield"]; rate > 0 && yieldSites[base] && !n.Crashed {
+		k := base + "/" + table
+		if n.hitsT == nil {
+			n.hitsT = map[string]int{}
+		}
+		n.hitsT[k]++
+		h := fnv.New64a()
+		fmt.Fprintf(h, "%d|%s|%s|%d", e.Plan.Seed, n.Name, k, n.hitsT[k])
+		v := h.Sum64()
+		if int64(v%1000) < rate {
+			pause = yieldPauses[(v>>20)%uint64(len(yieldPauses))]
+			e.Counts["yield."+base]++
+		}
+	}
 	e.mu.Unlock()
 	if doCrash {
 		e.crashNow(n, "site:"+base+":"+table)
+	}
+	if pause > 0 {
+		time.Sleep(pause)
 	}
 	if cb != nil {
 		cb(n, base, table)
@@ -415,10 +442,24 @@ func (n *Node) Close() {
 		return
 	}
 	n.closed = true
-	if n.closeFn != nil {
-		n.closeFn()
-	} else {
-		n.DB.Close()
+	// DB.Close waits for every background task; a table's insert loop that is
+	// blocked handing an entry to its row store after the row store has
+	// stopped never ends (observed with the yield layer; not one of the listed
+	// properties). An operator would kill the process after a grace period:
+	// so does the harness, after 30 simulated seconds.
+	done := make(chan struct{})
+	go func() {
+		defer close(done)
+		if n.closeFn != nil {
+			n.closeFn()
+		} else {
+			n.DB.Close()
+		}
+	}()
+	select {
+	case <-done:
+	case <-time.After(30 * time.Second):
+		n.env.Count("probe.close-hung")
 	}
 	synctest.Wait()
 }
